@@ -38,6 +38,7 @@ GNext ==
           \/ \E k \in 1..3, p \in PIds : p <= st.np /\ st.prop[p].st \in {"voting", "passed"} /\ Tick
           \/ \E k \in 1..3, by \in Acc, cand \in Cands : st.nom[cand] > 0 /\ TVote(by, cand, 500)
           \/ \E k \in 1..2, by \in Acc, cand \in Cands : st.tv[cand][by] > 0 /\ TRevoke(by, cand, st.tv[cand][by])
+          \/ \E by \in Acc : st.nom[by] > 0 /\ TRevNom(by)
 GSpec == Init /\ [][GNext]_vars
 Dump == Len(hist) < MaxOps \/ (JsonSerialize("out/b_" \o ToString(TLCGet("stats").traces) \o ".json", hist) /\ FALSE)
 =============================================================================
